@@ -22,7 +22,7 @@ CLAIMED = {
         "smallest failing sub-type; independently of the verdict oracle (also in its unspecified cells) every returned value must be shaped like an "
         "image of T at every depth (pv/typed.py: exactly int where int is declared, list for List, ...), and an accepted instance of a subclass of an interchange "
         "type (user subclass, a str subclass whose __str__ is not its text, mixin enum member; suite subclass-inputs) converts to the plain value it carries. Evidence that the property held on "
-        "everything explored, with the class histogram of what was explored.",
+        "everything explored, with the class histogram of what was explored. Suite namedtuple: NamedTuple / namedtuple classes (bare, in a list, as a field) x 17 values against hand-written verdicts; convert() of subclassed inputs is judged like from_data.",
         "Trusts the reference interpreter (pv/tg.py, pv/cg.py), stdlib constructors, and the list of unspecified cells in DESIGN.md section 2.",
         "DESIGN.md section 5, C01",
     ),
@@ -48,7 +48,7 @@ CLAIMED = {
         "Every call either returns or raises ConvertError; any other exception is a violation keyed by (exception type, innermost pane frame); values include "
         "numpy arrays and instances of subclasses of interchange types, and YAML documents made of YAML's own scalar kinds (timestamps, sets, binary). "
         "18 unsupported type forms x 11 embedding wrappers are enumerated: make_converter and from_data must raise TypeError/UnsupportedAnnotation "
-        "identically for every value; every supported type of the grammar must build.",
+        "identically for every value; every supported type of the grammar must build. Ill-formed tagged unions (a member without the tag, Optional of a tagged union) are among the unsupported forms.",
         "Values are interchange data with ints under 1000 digits. Trusts the classification of type forms into supported/unsupported taken from docs/index.md.",
         "DESIGN.md section 5, C04",
     ),
@@ -75,7 +75,7 @@ CLAIMED = {
         "For every rejected generated (type, value): product nodes are keyed by exactly the positions/keys whose element is rejected on its own and "
         "each child equals that element's own tree; missing/extra equal the model's sets; unions report one alternative per built member in order, "
         "each equal to the member's own tree; tagged unions report the selected variant's tree; leaves record the offending sub-value. A second suite "
-        "resolves the unspecified python-name-as-key cell by observation: the tree must describe the same key-naming relation the fast path uses.",
+        "resolves the unspecified python-name-as-key cell by observation: the tree must describe the same key-naming relation the fast path uses. Children of a homogeneous mapping are keyed by the key itself, whatever its kind.",
         "Element trees come from pane itself (composition is what is checked; verdicts are C01's). Trusts pv/errtree.py tree equality and the class model's key tables.",
         "DESIGN.md section 5, C07",
     ),
@@ -84,7 +84,7 @@ CLAIMED = {
         "Every error tree reachable from the generator is rendered: rendering returns, is repeatable, a deep copy renders to the same lines, and the "
         "text contains every path component in nesting order followed by each leaf's expectation (a product node that only lacks fields or has unknown keys is a leaf), every missing/unexpected/duplicate name, the "
         "offending value of every leaf outside a sum (one per sum), and the message of every causing exception. Batches of failing conversions are also rendered "
-        "in fresh interpreters under two other PYTHONHASHSEED values and must give the same text.",
+        "in fresh interpreters under two other PYTHONHASHSEED values and must give the same text. A union shows the value the union was given; suite huge-ints renders failures around ints of 4300 to 20001 digits.",
         "Containment is substring-in-order, so wording/layout changes are not flagged.",
         "DESIGN.md section 5, C08",
     ),
@@ -102,7 +102,7 @@ CLAIMED = {
         "Histories of up to 50 (thorough 120) operations on short-lived type objects; every conversion outcome must equal the reference verdict for "
         "(spec, value) - also after the caller has modified every container of an earlier result -, the memoised converter must behave like one built past the cache, interleaved calls with different call-level handlers must "
         "each follow their own handlers, and KeyCache (unbounded and LRU maxsize 1-4) must always return f(args) and respect maxsize. "
-        "Histories are plain data and replay without Hypothesis.",
+        "Histories are plain data and replay without Hypothesis. Union member order below another union / annotation, in constrained TypeVars and ValueOrList must not follow an equal type written earlier; suite register-after-use: a handler registered after a type was first converted is used from then on.",
         "The harness does not own the thread schedule (stress only) nor the allocator (id-reuse events are measured and reported, not forced).",
         "DESIGN.md section 5, C10",
     ),
@@ -128,7 +128,7 @@ CLAIMED = {
         "predicates, shape/broadcastable) over scalar, sized, array and nested inner types, with values at, next to and away from every threshold: "
         "accept iff the inner type accepts and the independent evaluator holds; the value is returned unchanged; a raising predicate yields ConvertError "
         "with a cause; into_data ignores conditions. Pairs of expressions that read alike when flattened but nest differently sit in one type "
-        "(each position must enforce its own predicate); the stock conditions x combinators x boundary values table and the shipped aliases are enumerated.",
+        "(each position must enforce its own predicate); the stock conditions x combinators x boundary values table (real and complex values) and the shipped aliases are enumerated; suite custom-annotation places conditions before and after a ConvertAnnotation that is not a condition.",
         "Trusts the evaluator in pv/tg.py (cond_eval, 6-line broadcasting rule) and Python comparison semantics.",
         "DESIGN.md section 5, C13",
     ),
@@ -136,7 +136,7 @@ CLAIMED = {
         "Hypothesis generation of class definitions x supplied-field subsets x construction paths; class-model oracle (reference field images, default/factory freshness, set-field record, hook count)",
         "Generated dataclass definitions are constructed through six paths (keyword, positional, mixed, mapping data, sequence data, make_unchecked); "
         "the instance must match the class model field by field (converted images, defaults, fresh factory products never shared and never the "
-        "factory), dict(set_only=True) must equal the supplied names, __post_init__ must run exactly once, and the constructor must agree with from_data by name and by position.",
+        "factory), dict(set_only=True) must equal the supplied names, __post_init__ must run exactly once, and the constructor must agree with from_data by name and by position; on non-frozen classes assigning a field adds exactly that field to the record and a non-field attribute does not enter it.",
         "Trusts the class model in pv/cg.py (computed from the spec, never from __pane_info__). Constructor arguments are plain interchange data.",
         "DESIGN.md section 5, C14",
     ),
@@ -153,8 +153,8 @@ CLAIMED = {
         "Every (eq, order, frozen, unsafe_hash, explicit __hash__, user __eq__) point is built both as a pane dataclass and as a standard "
         "dataclass and must land in the same hash category; equality/ordering are checked against the compare-fields model (reflexive, symmetric, "
         "transitive on triples, lexicographic, trichotomy, eq implies equal hash); frozen, copy, deepcopy, __replace__ and repr are checked against the model; "
-        "generated hash / modify / copy / set-lookup histories over five legitimately mutable configurations require equal instances to hash equal at every moment.",
-        "Trusts the standard library's dataclass hash table as the reference. Field values are totally ordered and NaN-free.",
+        "generated hash / modify / copy / set-lookup histories over five legitimately mutable configurations require equal instances to hash equal at every moment. Suite partial-order: float (NaN) / FrozenSet / int fields, the four operators against the lexicographic definition; copy of an instance with an unset init=False field.",
+        "Trusts the standard library's dataclass hash table as the reference. Field values are totally ordered and NaN-free except in suite partial-order.",
         "DESIGN.md section 5, C16",
     ),
     'C17': (
@@ -170,7 +170,7 @@ CLAIMED = {
         "Every source converts the marker type to a value naming the source; the observed label at each position (direct field, List, Dict, Optional, "
         "Tuple, nested dataclass, subclass, top-level container, inside a third-party generic container served by a registered handler, untyped positions on output) and in three directions (from_data, into_data, construction of the containing class) must be the first present source in the documented order; "
         "declining handlers (NotImplemented / NotImplementedError) are skipped; mapping-form handlers match only the exact unparameterised type; "
-        "global handlers sit after the scalar built-ins and the protocol, before structural built-ins.",
+        "global handlers sit after the scalar built-ins and the protocol, before structural built-ins. Also: construction of the enclosing class (ctor-outer), converters that read the data form only (strict) on output through unions, a handler for the type of an enum's values in both directions.",
         "A fresh marker class per case keeps the converter cache out of the picture; one global dispatcher is registered per process.",
         "DESIGN.md section 5, C18",
     ),
@@ -179,7 +179,7 @@ CLAIMED = {
         "Typed values whose serialised form the format can represent are written through every sink (Path, str path, caller stream, caller-opened file, "
         "dataclass method returning a string / writing a stream) under generated options and read back through every source (stream, Path, str path, "
         "dataclass classmethods); the value read must be the same, functions and methods must agree, from_yaml_all must return one value per document, "
-        "caller streams must stay open, files pane opens must be closed and opened as UTF-8.",
+        "caller streams must stay open, files pane opens must be closed and opened as UTF-8. Suite scalar-documents: enum members and scalar-subclass instances as whole documents, written with and without ty=.",
         "Trusts json / PyYAML; text PyYAML itself cannot round-trip is excluded and counted. NaN excluded.",
         "DESIGN.md section 5, C19",
     ),
